@@ -21,13 +21,18 @@ def assertion_patterns():
              ("concat", [a, O("AnyLetter()")]), ("concat", [L("a+"), ("exactly", b, 2)]),
              ("fb", a, [b]), ("nfb", a, [L("bc")]), ("pb", a, [b]), ("npb", ab, [L("c")]), ("fb", a, [("plus", b, True)]),
              ("concat", [O("WordBoundary()"), a]), ("mas", a), ("male", ab), ("either", [("fb", a, [b]), L("c")]),
-             ("opt", ("fb", L(""), [a]), True), ("exactly", ("either", [a, b]), 2), ("enclose", a, [b])]
+             ("opt", ("fb", L(""), [a]), True), ("exactly", ("either", [a, b]), 2), ("enclose", a, [b]),
+             ("concat", [L("["), ("exactly", O("AnyDigit()"), 2), L("]")]), ("concat", [L("[?"), a, L("]*")]), ("either", [O("AnyFrom('c', '\\\\')"), O("AnyFrom('0', '5')")]),
+             ("concat", [("either", [O("AnyFrom('c', '\\\\')"), O("AnyFrom('0', '5')")]), L("z")]), ("either", [O("AnyFrom('\\\\', ')')"), L("x")])]
     varw = [("opt", a, True), ("opt", ab, False), ("star", a, True), ("plus", ab, True), ("atleast", a, 2, True), ("atmost", a, 2, True),
             ("between", a, 1, 2, True), ("between", a, 0, 1, False), ("either", [a, ab]), ("either", [ab, L("c")]), ("either", [a, b, L("cd")]),
             ("concat", [a, ("opt", b, True)]), ("exactly", ("opt", a, True), 2), ("group", ("plus", a, True), False),
             ("capture", ("either", [a, ab]), None), ("either", [ab, ("opt", cd, True)]), ("concat", [("star", O("AnyDigit()"), True), a]),
             ("opt", O("AnyFrom('+', '-')"), True), ("plus", L("?"), True), ("either", [L("a?"), a]), ("fb", ("opt", a, True), [b]),
-            ("concat", [("either", [a, ab]), b]), ("enclose", ("opt", a, True), [b]), ("atmost", ("exactly", a, 2), 3, True)]
+            ("concat", [("either", [a, ab]), b]), ("enclose", ("opt", a, True), [b]), ("atmost", ("exactly", a, 2), 3, True),
+            ("concat", [L("["), ("plus", O("AnyDigit()"), True), L("]")]), ("concat", [L("[a"), ("star", b, True), L("]")]), ("concat", [L("("), ("opt", a, True), L(")")]),
+            ("concat", [L("[^"), ("between", a, 1, 2, True), L("]x")]), ("concat", [L("\\["), ("either", [a, ab]), L("]")]), ("concat", [L("{"), ("plus", a, True), L("}")]),
+            ("concat", [O("AnyFrom('[', 'x')"), ("opt", a, True), L("]")])]
     return fixed, varw
 
 
@@ -44,8 +49,8 @@ def family(tier):
     return progs.dedupe(ps)
 
 
-def task_prog(e, Lmax):
-    return progs.check_program(e, Lmax, spellings=("class", "method"), mode="C10")
+def task_prog(e, Lmax, outcomes=None):
+    return progs.check_program(e, Lmax, spellings=("class", "method"), mode="C10", outcomes=outcomes)
 
 
 def e1_cases(tier):
@@ -62,6 +67,8 @@ def e1_cases(tier):
             cs.append(engine.exc_case("%s('x', Either(A0, 'ab'))" % cls, P1, pre, required=NF if K != 2 else None, forbidden=[NF] if K == 2 else [],
                                       name="%s('x', Either(A0,'ab')) |%d| %s" % (cls, K, "accepted" if K == 2 else "refused")))
         pre1 = ["len(A0) == 1"]
+        cs.append(engine.exc_case("%s('x', Pregex(A0) + OneOrMore('b') + Pregex(A1))" % cls, [("A0", "str"), ("A1", "str")], ["len(A0) == 1 and len(A1) == 1"],
+                                  required=NF, name="%s('x', A0 + OneOrMore('b') + A1) refused whatever characters surround the variable part" % cls))
         cs.append(engine.exc_case("%s('x', AnyFrom(A0))" % cls, P1, pre1, forbidden=[NF], name="%s('x', AnyFrom(A0)) accepted" % cls))
         cs.append(engine.exc_case("Pregex('x').%s(AnyFrom(A0, 'b'))" % meth, P1, pre1, forbidden=[NF], name="x.%s(AnyFrom(A0,'b')) accepted" % meth))
         cs.append(engine.exc_case("%s('x', OneOrMore(AnyFrom(A0)))" % cls, P1, pre1, required=NF, name="%s('x', OneOrMore(AnyFrom(A0))) refused" % cls))
@@ -86,7 +93,8 @@ def run(tier):
     import pregex.core.pre as pre
     run.functions += common.src_fingerprint([pre.Pregex._Pregex__is_fixed_width]) if hasattr(pre.Pregex, "_Pregex__is_fixed_width") else []
     ps = family(tier)
-    run.add(common.run_tasks(__name__, [("task_prog", (e, 4)) for e in ps], progress=2000))
+    so = progs.with_seed_outcomes(ps, list(range(6)) if tier == "quick" else list(range(16)))
+    run.add(common.run_tasks(__name__, [("task_prog", (e, 4, so.get(i))) for i, e in enumerate(ps)], progress=2000))
     cases = e1_cases(tier)
     outs = engine.run_cases(cases, per_condition_timeout=240 if tier == "quick" else 1200)
     run.add(engine.to_results(cases, outs))
